@@ -51,6 +51,41 @@ class Prop:
     def compare(self, line, k, impl_M, model_M, spec_S):
         raise NotImplementedError
 
+    def group_of(self, line):
+        """case lines with the same group are evaluated in the same worker (metamorphic pairs)"""
+        return line.split(' ', 1)[0]
+
+    def check_chunk(self, by_id, impl, model, stats, fails):
+        """default: every (case, input) on its own, through `compare`"""
+        for key, mo in model.items():
+            if key == '__bad__':
+                continue
+            cid, _, k = key.rpartition('.')
+            line = by_id.get(cid)
+            io = impl.get(key, {})
+            stats['pairs'] += 1
+            i_m = io.get('M')
+            m_m = mo.get('M')
+            m_s = mo.get('S')
+            if i_m is None:
+                fails.append(('missing', line, int(k), 'no implementation observation (crash / hang?)'))
+                continue
+            res = self.compare(line, int(k), i_m, m_m, m_s)
+            oc = res.get('outcome', '?')
+            stats['outcomes'][oc] = stats['outcomes'].get(oc, 0) + 1
+            if res.get('nontrivial'):
+                stats['nontrivial'] += 1
+            if not res['pred']:
+                stats['pred_fail'] += 1
+                if len(fails) < 200:
+                    fails.append(('pred', line, int(k), res.get('why', '') + f' || impl: {i_m} || model: {m_m} || spec: {m_s}'))
+            elif not res['corr']:
+                stats['corr_disagree'] += 1
+                if len(fails) < 200:
+                    fails.append(('corr', line, int(k), f'impl: {i_m} || model: {m_m}'))
+            elif len(stats['samples']) < 2 and res.get('nontrivial'):
+                stats['samples'].append({'case': grammar_of(line), 'input_index': int(k), 'impl': i_m})
+
 
 def proj_accept_value(m):
     if m['kind'] == 'R':
@@ -129,6 +164,60 @@ def full_compare(line, k, impl_M, model_M, spec_S):
             'nontrivial': is_nontrivial(line, k, None)}
 
 
+def stream_items(tier, seed, want):
+    """(grammar, inputs, kwargs) of the validation streams"""
+    rng = random.Random(seed)
+    items = []
+
+    def add(g, inputs, **kw):
+        items.append((g, inputs, kw))
+    by = gen.enum_by_size(3, gen.C01_LEAVES, gen.C01_UNARIES, gen.C01_BINARIES, gen.C01_TERNARIES)
+    small = [g for s in (1, 2) for g in by[s]]
+    c01 = [g for s in sorted(by) for g in by[s]]
+    inp01 = inputs_all(4, [gen.A, gen.B, gen.EA]) + ' ' + inputs_all(2, [gen.A, gen.CLEF])
+    if 'c01' in want:
+        for g in c01:
+            add(g, inp01)
+    if 'c02' in want:
+        inp02 = inputs_all(6 if tier != 'quick' else 5, gen.C02_ALPHA)
+        its = gen.c02_iterators(gen.C02_ITEMS[:4], gen.C02_SEPS[:2], gen.bounds(3))
+        rng.shuffle(its)
+        for it in its[:400 if tier == 'quick' else 4000]:
+            for c in gen.c02_consumers(it):
+                add(c, inp02)
+        for g in gen.c02_special():
+            add(g, inp02)
+        for a in gen.C02_NULLABLE_ITEMS:
+            for it in [('rep', a, 0, None), ('rep', a, 1, 3), ('sep', a, ('just', [gen.COMMA]), 0, None, False, False)]:
+                for c in gen.c02_consumers(it):
+                    add(c, inputs_all(3, gen.C02_ALPHA))
+    base = [g for g in c01 if gen.size(g) >= 2]
+    rng.shuffle(base)
+    for key, wraps, cnt in (('emit', gen.EMITTERS, 600), ('rec', gen.RECOVERIES, 600), ('deco', gen.DECORATIONS, 600)):
+        if key not in want:
+            continue
+        for g in base[:cnt if tier == 'quick' else cnt * 8]:
+            for w in wraps:
+                for g2 in gen.insert_at_nodes(g, w):
+                    add(g2, inp01)
+    if 'ek' in want:
+        pool = base[:300] + [g2 for g in base[300:420] for w in gen.RECOVERIES + gen.DECORATIONS[2:] for g2 in gen.insert_at_nodes(g, w)[:3]]
+        for g in pool:
+            for ek in ('simple', 'cheap', 'empty'):
+                add(g, inp01, ek=ek)
+    if 'ctx' in want:
+        for g in gen.ctx_family():
+            add(g, inputs_all(5, [gen.A, gen.B, 50, 51]))
+        pool = base[:500]
+        for g in pool:
+            for g2 in gen.insert_at_nodes(g, lambda a: ('mwctx', a))[:2]:
+                for w in gen.CTX_PROVIDERS:
+                    for g3 in gen.insert_at_nodes(g2, w)[:4]:
+                        add(g3, inp01)
+    return items
+
+
+
 class ALL(Prop):
     """model validation: the whole observation (output, every error, final inspector state) of model and
     implementation on every stream. Not a property check; used to keep the model honest."""
@@ -141,65 +230,106 @@ class ALL(Prop):
         self.streams = streams
 
     def cases(self, tier, seed):
-        rng = random.Random(seed)
-        lines = []
-        n = [0]
-
-        def add(g, inputs, **kw):
-            kind = 'str' if n[0] % 2 == 0 else 'slice'
-            lines.append(case_line(f'a{n[0]}', g, inputs, kind=kw.pop('kind', kind), **kw))
-            n[0] += 1
         want = self.streams or ['c01', 'c02', 'emit', 'rec', 'deco', 'ctx', 'ek']
-        by = gen.enum_by_size(3, gen.C01_LEAVES, gen.C01_UNARIES, gen.C01_BINARIES, gen.C01_TERNARIES)
-        small = [g for s in (1, 2) for g in by[s]]
-        c01 = [g for s in sorted(by) for g in by[s]]
-        inp01 = inputs_all(4, [gen.A, gen.B, gen.EA]) + ' ' + inputs_all(2, [gen.A, gen.CLEF])
-        if 'c01' in want:
-            for g in c01:
-                add(g, inp01)
-        if 'c02' in want:
-            inp02 = inputs_all(6 if tier != 'quick' else 5, gen.C02_ALPHA)
-            its = gen.c02_iterators(gen.C02_ITEMS[:4], gen.C02_SEPS[:2], gen.bounds(3))
-            rng.shuffle(its)
-            for it in its[:400 if tier == 'quick' else 4000]:
-                for c in gen.c02_consumers(it):
-                    add(c, inp02)
-            for g in gen.c02_special():
-                add(g, inp02)
-            for a in gen.C02_NULLABLE_ITEMS:
-                for it in [('rep', a, 0, None), ('rep', a, 1, 3), ('sep', a, ('just', [gen.COMMA]), 0, None, False, False)]:
-                    for c in gen.c02_consumers(it):
-                        add(c, inputs_all(3, gen.C02_ALPHA))
-        base = [g for g in c01 if gen.size(g) >= 2]
-        rng.shuffle(base)
-        for key, wraps, cnt in (('emit', gen.EMITTERS, 600), ('rec', gen.RECOVERIES, 600), ('deco', gen.DECORATIONS, 600)):
-            if key not in want:
-                continue
-            for g in base[:cnt if tier == 'quick' else cnt * 8]:
-                for w in wraps:
-                    for g2 in gen.insert_at_nodes(g, w):
-                        add(g2, inp01)
-        if 'ek' in want:
-            pool = base[:300] + [g2 for g in base[300:420] for w in gen.RECOVERIES + gen.DECORATIONS[2:] for g2 in gen.insert_at_nodes(g, w)[:3]]
-            for g in pool:
-                for ek in ('simple', 'cheap', 'empty'):
-                    add(g, inp01, ek=ek)
-        if 'ctx' in want:
-            for g in gen.ctx_family():
-                add(g, inputs_all(5, [gen.A, gen.B, 50, 51]))
-            pool = base[:500]
-            for g in pool:
-                for g2 in gen.insert_at_nodes(g, lambda a: ('mwctx', a))[:2]:
-                    for w in gen.CTX_PROVIDERS:
-                        for g3 in gen.insert_at_nodes(g2, w)[:4]:
-                            add(g3, inp01)
+        lines = []
+        for n, (g, inputs, kw) in enumerate(stream_items(tier, seed, want)):
+            kw = dict(kw)
+            kind = kw.pop('kind', 'str' if n % 2 == 0 else 'slice')
+            lines.append(case_line(f'a{n}', g, inputs, kind=kind, **kw))
         return lines
 
     def compare(self, line, k, impl_M, model_M, spec_S):
         return full_compare(line, k, impl_M, model_M, spec_S)
 
 
-PROPS = {p.name: p for p in [C01(), ALL()]}
+
+class C04(Prop):
+    name = 'C04'
+    module = 'C04'
+    title = 'check mode and output elision are unobservable'
+    claimed = True
+    level_text = ('theorem run check = erase (run emit) for every grammar of the object language, every state and fuel (Lean), '
+                  'value-building formulations proved equal; check() vs parse() of the real crate compared on every stream')
+    rule = ('every grammar of the validation streams (C01 class, repetition/consumers, emitters, recovery, decorations, context, '
+            'all four error kinds) is run twice, through parse and through check; non-trivial = backtracking grammar and '
+            'non-empty input; pairs are distinct (grammar, input, mode) triples')
+    bins = ALL.bins
+
+    def cases(self, tier, seed):
+        lines = []
+        items = stream_items(tier, seed, ['c01', 'c02', 'emit', 'rec', 'deco', 'ctx', 'ek'])
+        rng = random.Random(seed)
+        if tier == 'quick':
+            rng.shuffle(items)
+            items = items[:6000]
+        for n, (g, inputs, kw) in enumerate(items):
+            kw = dict(kw)
+            kind = kw.pop('kind', 'str' if n % 2 == 0 else 'slice')
+            lines.append(case_line(f'x{n}p', g, inputs, kind=kind, mode='parse', **kw))
+            lines.append(case_line(f'x{n}c', g, inputs, kind=kind, mode='check', **kw))
+        # value-building formulations
+        pairs = []
+        smalls = gen.C01_LEAVES[:10]
+        for a in smalls:
+            for b in smalls:
+                pairs.append((('ithen', a, b), ('map', 'snd', ('then', a, b))))
+                pairs.append((('theni', a, b), ('map', 'fst', ('then', a, b))))
+                pairs.append((('padded', a, b), ('theni', ('ithen', b, a), b)))
+                pairs.append((('delim', a, b, ('just', [gen.B])), ('theni', ('ithen', b, a), ('just', [gen.B]))))
+            pairs.append((('ignored', a), ('to', ('vunit',), a)))
+            pairs.append((('iterp', ('rep', a, 1, 3)), ('collect', 'unit', ('rep', a, 1, 3))))
+        inp = inputs_all(4, [gen.A, gen.B, gen.EA])
+        for n, (l, r) in enumerate(pairs):
+            for mode in ('parse', 'check'):
+                lines.append(case_line(f'y{n}{mode[0]}p', l, inp, mode=mode))
+                lines.append(case_line(f'y{n}{mode[0]}c', r, inp, mode=mode))
+        return lines
+
+    def group_of(self, line):
+        return line.split(' ', 1)[0][:-1]
+
+    def check_chunk(self, by_id, impl, model, stats, fails):
+        for key, mo in model.items():
+            if key == '__bad__' or not key.rpartition('.')[0].endswith('p'):
+                continue
+            cid, _, k = key.rpartition('.')
+            cid_c = cid[:-1] + 'c'
+            line = by_id.get(cid)
+            ip = impl.get(key, {}).get('M')
+            ic = impl.get(cid_c + '.' + k, {}).get('M')
+            mp = mo.get('M')
+            mc = model.get(cid_c + '.' + k, {}).get('M')
+            stats['pairs'] += 2
+            if ip is None or ic is None:
+                fails.append(('missing', line, int(k), 'no implementation observation'))
+                continue
+            a, b = parse_M(ip), parse_M(ic)
+            if cid.startswith('x'):
+                # check vs parse: same acceptance, identical error list (values erased)
+                pa = (a['kind'], a.get('out') is not None, a.get('errs'), a.get('site'))
+                pb = (b['kind'], b.get('out') is not None, b.get('errs'), b.get('site'))
+            else:
+                # two formulations: identical observation
+                pa, pb = ip, ic
+            pred = pa == pb
+            corr = (ip == mp) and (ic == mc)
+            oc = a['kind'] + ('+' if a.get('out') is not None else '-')
+            stats['outcomes'][oc] = stats['outcomes'].get(oc, 0) + 1
+            if is_nontrivial(line, int(k), None):
+                stats['nontrivial'] += 2
+            if not pred:
+                stats['pred_fail'] += 1
+                if len(fails) < 200:
+                    fails.append(('pred', line, int(k), f'check/parse (or the two formulations) differ || first: {ip} || second: {ic}'))
+            elif not corr:
+                stats['corr_disagree'] += 1
+                if len(fails) < 200:
+                    fails.append(('corr', line, int(k), f'impl: {ip} / {ic} || model: {mp} / {mc}'))
+            elif len(stats['samples']) < 2 and int(k) > 3:
+                stats['samples'].append({'case': grammar_of(line), 'input_index': int(k), 'parse': ip, 'check': ic})
+
+
+PROPS = {p.name: p for p in [C01(), ALL(), C04()]}
 for _s in ['c01', 'c02', 'emit', 'rec', 'deco', 'ctx', 'ek']:
     PROPS['ALL_' + _s] = ALL([_s])
     PROPS['ALL_' + _s].name = 'ALL_' + _s
